@@ -109,9 +109,10 @@ func (k Keeper) IterateConsensusStates(
 	for ; iterator.Valid(); iterator.Next() {
 		key := iterator.Key()
 
-		keySplit := strings.Split(string(key), "/")
 		// consensus key is in the format "clients/<chainName>/consensusStates/<height>"
-		if len(keySplit) != 4 || keySplit[2] != string(host.KeyConsensusStatePrefix) {
+		// where <height> is 16 raw big-endian bytes that may themselves contain '/'
+		keySplit := strings.SplitN(string(key), "/", 4)
+		if len(keySplit) != 4 || keySplit[2] != string(host.KeyConsensusStatePrefix) || len(keySplit[3]) != 16 {
 			continue
 		}
 		chainName := keySplit[1]
@@ -247,8 +248,10 @@ func (k Keeper) IterateClients(
 
 	defer iterator.Close()
 	for ; iterator.Valid(); iterator.Next() {
-		keySplit := strings.Split(string(iterator.Key()), "/")
-		if keySplit[len(keySplit)-1] != host.KeyClientState {
+		// key is clients/{chainName}/clientState; binary heights of consensus
+		// state keys may contain '/', so only split off the first two elements
+		keySplit := strings.SplitN(string(iterator.Key()), "/", 3)
+		if len(keySplit) != 3 || keySplit[2] != host.KeyClientState {
 			continue
 		}
 		clientState := k.MustUnmarshalClientState(iterator.Value())
